@@ -82,22 +82,26 @@ Proof.
 Qed.
 
 (* ---------------------------------------------------------------- the readdir loop *)
+(* what one directory entry contributes to the call sequence *)
+Definition entry_calls (path : list Z) (data : Z) (e : list Z) : list dcall :=
+  DReaddir (Some e) :: (if not_dots e then [DCallback path e data] else []).
+
 Lemma dfe_loop_spec : forall path data ents st, Forall nul_free ents ->
   dfe_loop path data ents st =
   mkD (d_open st)
-      (d_calls st ++ map (fun e => DReaddir (Some e)) ents ++ [DReaddir None])
+      (d_calls st ++ flat_map (entry_calls path data) ents ++ [DReaddir None])
       (d_log st ++ map (fun e => (path, e, data)) (filter not_dots ents)).
 Proof.
-  intros path data. induction ents as [|e ents IH]; intros st H; cbn [dfe_loop map filter app].
+  intros path data. induction ents as [|e ents IH]; intros st H; cbn [dfe_loop map filter app flat_map].
   - unfold d_call. rewrite app_nil_r. reflexivity.
-  - inversion H as [|? ? He Hr]; subst. rewrite (skip_test e He). rewrite IH by exact Hr.
-    destruct (not_dots e); cbn [d_visit d_call d_open d_calls d_log map app]; rewrite <- !app_assoc; reflexivity.
+  - inversion H as [|? ? He Hr]; subst. rewrite (skip_test e He). rewrite IH by exact Hr. unfold entry_calls at 2.
+    destruct (not_dots e); cbn [d_visit d_call d_open d_calls d_log map app fst snd]; rewrite <- !app_assoc; reflexivity.
 Qed.
 
 Lemma dir_for_each_some : forall path data ents st, Forall nul_free ents ->
   dir_for_each path data (Some ents) st =
   mkD (d_open st)
-      (d_calls st ++ [DOpendir path true] ++ map (fun e => DReaddir (Some e)) ents ++ [DReaddir None; DClosedir])
+      (d_calls st ++ [DOpendir path true] ++ flat_map (entry_calls path data) ents ++ [DReaddir None; DClosedir])
       (d_log st ++ map (fun e => (path, e, data)) (filter not_dots ents)).
 Proof.
   intros path data ents st H. unfold dir_for_each. rewrite dfe_loop_spec by exact H.
@@ -205,9 +209,12 @@ Qed.
 Lemma fd_balance_app : forall a b, fd_balance (a ++ b) = fd_balance a + fd_balance b.
 Proof. induction a as [|c a IH]; intro b; cbn [fd_balance app]; [lia|]. rewrite IH. lia. Qed.
 
-Lemma fd_balance_readdirs : forall (ents : list (list Z)),
-  fd_balance (map sys_of_dcall (map (fun e => DReaddir (Some e)) ents)) = 0.
-Proof. induction ents as [|e ents IH]; cbn; [reflexivity|]. cbn in IH. exact IH. Qed.
+Lemma fd_balance_readdirs : forall path data (ents : list (list Z)),
+  fd_balance (map sys_of_dcall (flat_map (entry_calls path data) ents)) = 0.
+Proof.
+  intros path data. induction ents as [|e ents IH]; [reflexivity|].
+  cbn [flat_map]. rewrite map_app, fd_balance_app, IH. unfold entry_calls. destruct (not_dots e); reflexivity.
+Qed.
 
 Lemma fd_balance_fsev : forall tr : list fsev, fd_balance (map sys_of_fsev tr) = 0.
 Proof. induction tr as [|[p t|p rc] tr IH]; cbn; [reflexivity|exact IH|exact IH]. Qed.
